@@ -180,7 +180,7 @@ def nontrivial(chk, p, r, m):
 
 
 def run(chk):
-    n = 300 if chk.tier == "quick" else 10000
+    n = 900 if chk.tier == "quick" else 10000
     chk.rule = ("random projects (sub-directories, optional source maps, rules overridden in child contexts, srcdir, POST_LINK, custom "
                 "builds, downloads) through the real CLI; the whole ninja file (hash-derived numbers renamed by first occurrence) is compared "
                 "with the model's; oracle parses the ninja file: link inputs = one object per (expanded) source of the selected modules, "
